@@ -90,6 +90,8 @@ add("C46", EX, "Exhaustive small-scope exploration of the real dask.dataframe ro
     "bounded exhaustive differential enumeration against pandas")
 add("C47", EX, "CSV half only (parquet needs the real pyarrow library, absent here): every file of a small CSV grammar plus hand-written corner files x every blocksize, and every partitioning x every to_csv layout read back, compared with pandas.", "5/C47 and section 6", DF_NOTE + " The parquet half of the statement is NOT covered (pyarrow cannot be installed).",
     "bounded exhaustive differential enumeration against pandas (all blocksizes, all partitionings)")
+add("C52", MC, "(a) one Profiler active inside the exhaustive completion-order sweep (incl. every single failing task and a second get under the same profiler): exactly one entry per task that reached posttask, start <= end; (b) ALL histories of <= 2 (3) get calls under one Cache over 3 graph shapes x values from an alphabet with key-like strings, task-like tuples and lists of keys x every request subset, compared with the cache-free values.", "5/C52", SCHED_NOTE + " The absent cachey package is replaced by a 20-line stand-in (nbytes + dict-backed cache object); dask/cache.py runs unmodified.",
+    "exhaustive interleaving exploration (profiler) + exhaustive enumeration of get histories (cache) on the real callbacks")
 
 
 def build():
